@@ -1027,6 +1027,9 @@ impl TransactionBuilder {
         change_config: &ChangeConfig,
         collateral_percentage: &BigNum,
     ) -> Result<(), JsError> {
+        self.remove_collateral_return();
+        self.remove_total_collateral();
+
         let mut total_collateral = Value::zero();
         for collateral_input in self.collateral.iter() {
             total_collateral = total_collateral.checked_add(&collateral_input.amount)?;
